@@ -1,6 +1,8 @@
 """C03 - duty signatures are released only over the decided, validated duty data."""
 import re
 
+from props import runner_common
+
 ID = "C03"
 COQ_TARGETS = ["Props/C03.vo"]
 AREA = "runner"
@@ -38,6 +40,11 @@ ASSUMPTIONS = [
 ]
 
 
+def pre_coq(V):
+    """coq/Gen/RunnerConsts.v: which variant of two repaired code paths the tree contains."""
+    runner_common.pre_coq(V)
+
+
 def runs(tier, seed):
     if tier == "thorough":
         return [("gen%d" % i, ["runner", "-seed", str(seed * 1000 + i), "-n", "1500"]) for i in range(14)]
@@ -45,7 +52,7 @@ def runs(tier, seed):
 
 
 def search_runs(tier, seed):
-    return [("gen%d" % i, ["runner", "-seed", str(seed * 7919 + i), "-n", "1500"]) for i in range(6)]
+    return [("gen%d" % i, ["runner", "-seed", str(seed * 7919 + i), "-n", "600"]) for i in range(3)]
 
 
 def nontrivial(case):
@@ -80,7 +87,7 @@ def matches_known(finding, case):
         if not m:
             return False
         roles.add(m.group(1))
-    slot, higher, pending = {}, {}, None
+    slot, higher, pending, last_prev = {}, {}, None, None
     for l in case.lines:
         w = l.split()
         if l.startswith("RSTART "):
@@ -93,15 +100,16 @@ def matches_known(finding, case):
             continue
         if l.startswith("RMSG ") and ";" in w:
             k = w.index(";")
-            role = w[6] if w[1] == "T" else w[7]
             role = w[5] if w[1] == "T" else w[6]
+            last_prev = w[k + 2] if w[k - 1] == "C" else None
             if w[k - 1] == "C" and len(w) > k + 4 and w[k + 3] == "1" and role in slot:
                 h = int(w[k + 4])
                 if h > slot[role]:
                     higher[role].add(h)
         if l.startswith("MON viol"):
             m = _SIGNED.match(l[9:])
-            if not m or len(higher.get(m.group(1), ())) < 2:
+            # the repeated signature was made while the stale RunningInstance object was still undecided
+            if not m or len(higher.get(m.group(1), ())) < 2 or last_prev != "0":
                 return False
     return True
 
